@@ -6,6 +6,7 @@ From HexVerif Require Import Vexp RtlSem TbModel.
 From HexVerif.gen Require RtlSv RtlV RtlVSynth RtlHex.
 From HexVerif Require Import XAst XSem IsaMon XCodegenExpr XCodegenStmt XCodegenProgram.
 From HexVerif Require Import XConstProp.
+From HexVerif Require XFrontPreserve.
 From HexVerif Require XFront.
 From HexVerif Require AsmListingRead.
 From HexVerif Require SimTraceText.
@@ -24,6 +25,7 @@ Separate Extraction WMap.rd WMap.wr WMap.zero WMap.empty WMap.load_words Positiv
   XSem.run XSem.run_fuel XSem.default_fuel XSem.default_steps XSem.default_depth
   IsaMon.accesses IsaMon.acc_ok IsaMon.state_ok IsaMon.mon_ok XCodegenExpr.cg XCodegenExpr.frame_venv XCodegenExpr.first_temp XCodegenStmt.cproc XCodegenProgram.model_compile
   XConstProp.tree XConstProp.tree_opt XConstProp.front XConstProp.repo_arith XConstProp.repo_rejects_nonconst_val XConstProp.gen_const
+  XFrontPreserve.names_ok XFrontPreserve.front_swap_safe
   XFront.lex XFront.front_located XFront.front XFront.diag_message
   AsmListingRead.read_listing_line AsmListingRead.read_listing AsmListingRead.is_total_line AsmListingRead.listing_lines
   SimTraceText.prefix_text SimTraceText.has_debug SimTraceText.read_prefix.
